@@ -361,7 +361,10 @@ impl Segments {
                     self.segments.push_back(s);
                     PopExpiredProbe::Empty
                 }
-                (true, true) if s.retransmit_count() >= max_probe_retransmissions => {
+                // A probe that was cut but not put on the wire yet (the window had no room) didn't fail.
+                (true, true)
+                    if s.send_count() > 0 && s.retransmit_count() >= max_probe_retransmissions =>
+                {
                     // The probe's bytes go back to the unsegmented part of the TX buffer.
                     self.offset -= s.payload_size as u64;
                     self.len_bytes -= s.payload_size;
